@@ -1,4 +1,4 @@
-From AQ Require Import lib.Base model.H3Parse proofs.H3Chunk proofs.H3Split proofs.H3Loop proofs.H3Recv proofs.H3Fin proofs.H3Uni proofs.H3Table proofs.H3Push proofs.H3Hdr proofs.H3UniN.
+From AQ Require Import lib.Base model.H3Parse proofs.H3Chunk proofs.H3Split proofs.H3Loop proofs.H3Recv proofs.H3Fin proofs.H3Uni proofs.H3Table proofs.H3Push proofs.H3Hdr proofs.H3UniN proofs.H3Conn proofs.H3ConnTwo.
 
 (* On the code as pinned, the events of a request stream depend on the chunking: three byte strings for which
    whole delivery and a two-chunk delivery give different normalised events (end-of-stream marker). *)
@@ -186,6 +186,39 @@ Theorem uni_is_receive_stream_data :
   end.
 Proof. exact recv0_uni_full. Qed.
 Print Assumptions uni_is_receive_stream_data.
+
+(* CONNECTION LEVEL: _receive_stream_data for a unidirectional stream id, stream table (get_or_create / put_stream) and
+   resume pass included.  For every connection c0, unidirectional id sid whose stream (new or existing) is stream_ok, bytes
+   a, b: one delivery of a ++ b = delivery of a, then of b (FIN on the second one allowed off the control stream): same
+   normalised events AND the same connection afterwards -- settings, max push id, peer stream ids, and the WHOLE STREAM
+   TABLE, entry of sid and entries of all resumed streams, in the same order --, or both deliveries fail (cequiv).
+   Hypotheses: the QPACK streaming hypotheses of chunking_independent_uni, and the decoder never reports the stream being
+   delivered itself as unblocked.  Proof: the resume pass as a function of the table alone (unblock_unb), it commutes with
+   an update of another stream's entry (unb_put_other) and leaves other entries alone (unb_find_other), a unidirectional
+   delivery ignores the table (uni_full_ss), uni_two, unb_app. *)
+Theorem chunking_independent_uni_connection_level :
+  forall fx O, fx_trunc fx = true -> fx_endmark fx = true ->
+  forall c0 sid a b fin,
+  is_uni sid = true -> ds_seq O -> enc_seq O ->
+  stream_ok (fst (get_or_create c0 sid)) ->
+  (fin = true -> is_ctrl (fst (get_or_create c0 sid)) (a ++ b) = false) ->
+  (forall x l, o_enc O x = EUnblocked l -> ~ In sid l) ->
+  cequiv (receive_stream_data0 fx O c0 sid (a ++ b) fin)
+         (sbind (receive_stream_data0 fx O c0 sid a false) (fun c1 => receive_stream_data0 fx O c1 sid b fin)).
+Proof. exact recv_uni_two. Qed.
+Print Assumptions chunking_independent_uni_connection_level.
+
+(* "both deliveries fail" cannot be sharpened to "with the same code": encoder-stream bytes that unblock a stream whose
+   headers are refused, followed by bytes the decoder rejects, close with QPACK_ENCODER_STREAM_ERROR when delivered whole and
+   with H3_MESSAGE_ERROR when delivered in two pieces (no event in either case; replayed on the real H3Connection). *)
+Theorem chunking_independent_uni_connection_close_code_refuted :
+  run all_fixed (conn_init true true) [(QStream 0 [1; 1; 0] false, o_corner); (QStream 7 [2; 1; 9] false, o_corner)]
+    = [Events []; Closed QPACK_ENCODER_STREAM_ERROR] /\
+  run all_fixed (conn_init true true)
+      [(QStream 0 [1; 1; 0] false, o_corner); (QStream 7 [2; 1] false, o_corner); (QStream 7 [9] false, o_corner)]
+    = [Events []; Closed H3_MESSAGE_ERROR; Events []].
+Proof. exact close_code_corner. Qed.
+Print Assumptions chunking_independent_uni_connection_close_code_refuted.
 
 (* ... and the exception: on the control stream the close CODE depends on whether the FIN comes with the last bytes
    (the code checks "stream_ended" before it parses the frames of that delivery); both deliveries close the connection. *)
